@@ -193,7 +193,7 @@ def _fix_key(key):
 
 def _ex(v):
     """Make a python/numpy scalar exact."""
-    if isinstance(v, (Sx, Fraction, _NaN, SymBool)):
+    if isinstance(v, (Sx, Fraction, _NaN, SymBool, core.Qx)):
         return v
     if isinstance(v, (bool, _np.bool_)):
         return bool(v)
@@ -324,6 +324,8 @@ def _map2(f, a, b):
 def _sx(v):
     if isinstance(v, _np.ndarray) and v.size == 1:
         v = v.reshape(-1)[0]
+    if isinstance(v, core.Qx):
+        return v
     return v if isinstance(v, Sx) else Sx.const(_ex(v))
 
 
@@ -332,7 +334,7 @@ def _sx(v):
 # ---------------------------------------------------------------------------------------------
 
 def _el_conj(v):
-    return v.conjugate() if isinstance(v, (Sx, _NaN)) else v
+    return v.conjugate() if isinstance(v, (Sx, _NaN, core.Qx)) else v
 
 
 def _el_sqrt(v):
@@ -430,11 +432,11 @@ def _el_round(v):
 
 
 def _el_real(v):
-    return v.real if isinstance(v, (Sx, _NaN)) else v
+    return v.real if isinstance(v, (Sx, _NaN, core.Qx)) else v
 
 
 def _el_imag(v):
-    return v.imag if isinstance(v, (Sx, _NaN)) else 0
+    return v.imag if isinstance(v, (Sx, _NaN, core.Qx)) else 0
 
 
 def _el_isnan(v):
